@@ -1703,6 +1703,49 @@ def loop_region(ctx, body, bb, skip_headers=(), extra_drivers=()):
     return best
 
 
+def data_dependent_guards(ctx, body, bb):
+    """guards of block bb (other than its loop driver and await plumbing) whose value derives from the edge counts, the per-run
+    counts or a graph walk: conditions under which a per-function step would be skipped for some functions only"""
+    m, fl = ctx.model, ctx.model.flow
+    roles = structure_roles(ctx) or {}
+    out = []
+    lr = loop_region(ctx, body, bb)
+    for sb, de, vals in cond_guards(body, bb):
+        if lr is not None and sb == lr.get("switch_bb"):
+            continue
+        if (body.blocks[sb]["term"].get("sp") or {}).get("desugar") == "Await":
+            continue
+        ex = strip_refs(de)
+        inner = strip_refs(ex[1]) if ex.kind == "discr" else ex
+        narrowing = [c[1].split("::")[-1] for c in walk_expr(inner) if c.kind == "call" and "option::Option" in c[1] and
+                     c[1].split("::")[-1] in ("filter", "take_if", "xor", "zip", "and_then", "and")]
+        srcs = set()
+        syn = []
+        for c in walk_expr(inner):
+            if c.kind in ("call", "local", "arg", "field", "downcast", "deref", "index", "elem") or upvar_index(c) is not None:
+                srcs |= set(x for x in sources_of_expr(ctx, body, c, mode="taint") if x.kind != "unknown")
+            if c.kind == "call" and (c[1].startswith("edge_counts::EdgeCounts::") or c[1] in (CHILDREN, PARENTS)):
+                syn.append(c[1].split("::")[-1])
+        for c in walk_expr(inner):
+            # the predicate of a narrowing adaptor decides too
+            if c.kind == "call" and "option::Option" in c[1] and c[1].split("::")[-1] in ("filter", "take_if") and len(c[2]) > 1:
+                fcl = closure_of_arg(ctx, body, c[2][1])
+                if fcl is not None:
+                    srcs = set(srcs) | set(fl.sources_local(fcl, 0, (), "taint"))
+        dep = list(syn)
+        for s_ in srcs:
+            if s_.kind == "param" and len(s_[3]) >= 1 and s_[3][0] == roles.get("counts") and \
+                    (ctx.fb.fns.get(s_[1], {}).get("impl_self", "") or "").startswith("fn_graph::FnGraph<"):
+                dep.append("edge counts")
+            elif s_.kind == "alloc" and (s_[4].startswith("edge_counts::EdgeCounts::") or s_[4] in (CHILDREN, PARENTS)):
+                dep.append(s_[4].split("::")[-1])
+            elif s_.kind == "alloc" and count_role(ctx, [s_])[0]:
+                dep.append("per-run counts")
+        if dep and (narrowing or ex.kind != "discr" or True):
+            out.append("%s (depends on %s)" % (fmt_expr(ex, body)[:80], sorted(set(dep))[:2]))
+    return out
+
+
 def S3(ctx, rule="S3"):
     """Sole count writes: only `-= 1`, once per child visit, in the walk over
     children(done id) of the paired structure, no early exit."""
@@ -1807,6 +1850,13 @@ def S3(ctx, rule="S3"):
         ctx.check(walk_ok, rule, "walk|%s" % key, where,
                   "decrements happen in a `for_each` over `children(done_id)` of the structure paired with the counts, triggered by an id received from DONE",
                   why)
+        if walk_ok and chain is not None:
+            # ... for EVERY id received: no condition on the counts / the graph decides whether a completion is walked at all
+            wsite = (pb, ubb) if lr is None else (b, lr["next_bb"])
+            dg = data_dependent_guards(ctx, wsite[0], wsite[1]) if wsite[1] is not None else []
+            ctx.check(not dg, rule, "walk-always|%s" % key, m.where(wsite[0], wsite[1]),
+                      "the successor walk runs for every id received from DONE",
+                      "the successor walk is skipped for some completed functions: guarded by %s" % dg[:2])
     ctx.counts[rule + ".release_loops"] = n
     ctx.entry_floor(rule, rule, ('stream', 'fold', 'for_each', 'try_fold', 'try_for_each'), "release loop decrementing COUNTS")
     # wherever the per-run counts are handed on together with a structure, it is the structure the set-up paired them with
@@ -1996,6 +2046,10 @@ def S4(ctx, rule="S4", liveness=False):
                       "the done-send is dominated by the Ready arm of the await of the user future (line %s)" % (
                           dom[0].line if dom else "?"),
                       "the done-send is NOT dominated by the Ready arm of the user future's await: the id is reported done before / without the function completing")
+            dg = data_dependent_guards(ctx, eb, ebb)
+            ctx.check(not dg, rule, "done-always|%s" % key, ewhere,
+                      "whether a completed function reports done does not depend on the counts or the graph",
+                      "the done-send is skipped for some completed functions: guarded by %s; their successors (in one of the two orders) are never released" % dg[:2])
             # every path from the user call to the exit awaits the future: the call result flows only into the await
     ctx.counts[rule + ".per_item"] = n_item
     ctx.counts[rule + ".fnref_drop"] = n_drop
@@ -2400,6 +2454,36 @@ def S6(ctx, rule="S6", roles_filter=None):
                     "%s channel capacity `%s` is not a monotone function of node_count(): ids (errors) can be dropped / senders can block when the graph is wider" % (
                         role, fmt_expr(e, b)))
     ctx.floor(rule, 2 if roles_filter is None or ("READY" in roles_filter and "DONE" in roles_filter) else 1, "mpsc channel allocations")
+
+
+def S6b_bitsets(ctx, rule="S6b"):
+    """an id-indexed bit set (`FixedBitSet::insert(id.index())` panics beyond its length) is sized by the node count"""
+    m, fb, fl = ctx.model, ctx.fb, ctx.model.flow
+    n = 0
+    for b in fb.prod_bodies():
+        for bb, t in b.calls():
+            p = callee_path(t) or ""
+            if not (p.startswith("fixedbitset::FixedBitSet") and p.split("::")[-1] in ("insert", "set", "put", "toggle", "set_range", "insert_range")):
+                continue
+            n += 1
+            srcs = fl.sources_operand(b, t["args"][0])
+            bad = []
+            for s_ in srcs:
+                if s_.kind == "alloc" and s_[4].startswith("fixedbitset::FixedBitSet") and s_[4].split("::")[-1] == "with_capacity" and s_[1] in fb.bodies:
+                    ab = fb.bodies[s_[1]]
+                    ce = inline_local_calls(ctx, expr_operand(ab, ab.blocks[s_[2]]["term"]["args"][0]))
+                    ok_, _g = monotone_of_node_count(ctx, ab, ce)
+                    if not ok_:
+                        bad.append("capacity `%s`" % fmt_expr(ce, ab))
+                elif s_.kind == "alloc" and (s_[4].endswith("Visitable::visit_map") or s_[4].endswith("::reset_map")):
+                    continue
+                else:
+                    bad.append(fmt_src(s_))
+            ctx.check(not bad, rule, "bitset-capacity|%s" % short(b.id), m.where(b, bb),
+                      "the bit set written at an id's index is sized by the graph's node count",
+                      "a bit set indexed by function id is not sized by the node count (%s): `insert` panics for ids beyond its length" % bad[:2])
+    if n == 0:
+        ctx.ok(rule, "no-id-bitsets", "-", "no FixedBitSet is written by the crate's own code")
 
 
 def result_uses_panicking(ctx, body, bb, t):
